@@ -759,6 +759,15 @@ func Respell(eco, s string, r *rand.Rand) []string {
 				add(strings.Replace(s, p[0], p[1], 1))
 			}
 		}
+	case "gem":
+		// gem reads '-' as ".pre.": 2.0-1 == 2.0.pre.1 == 2.0.pre1
+		if i := strings.Index(s, "-"); i > 0 {
+			add(s[:i] + ".pre." + s[i+1:])
+			add(s[:i] + ".pre" + s[i+1:])
+		}
+		if i := strings.Index(s, ".pre."); i > 0 {
+			add(s[:i] + "-" + s[i+5:])
+		}
 	case "debian":
 		if !strings.Contains(s, "-") {
 			add(s + "-0")
@@ -1201,6 +1210,22 @@ func Cluster(eco string, r *rand.Rand) []string {
 				}
 			}
 			out = append(out, m+".1", m+"-1")
+		}
+	}
+	// golang: the placeholder pseudo-version the go command writes for a module without version information (zero
+	// time, all-zero revision) and its neighbours, with and without build metadata
+	if eco == "golang" && chance(r, 1, 4) {
+		out = append(out, "v0.0.0-00010101000000-000000000000", "v0.0.0-00010101000000-000000000000+build.1", "v0.0.0-00010101000001-000000000000",
+			"v0.0.0-00010101000000-000000000001", "v0.0.0-0", "v0.0.0", "v0.0.1-0.00010101000000-000000000000", "v1.0.0-00010101000000-000000000000")
+	}
+	// gem: hyphen spellings of numeric pre-releases next to their dotted equals (2.0-1 == 2.0.pre.1)
+	if eco == "gem" && chance(r, 1, 4) {
+		short := base
+		if i := strings.LastIndex(base, "."); i > 0 {
+			short = base[:i]
+		}
+		for _, b := range []string{base, short} {
+			out = append(out, b+"-1", b+".pre.1", b+".pre1", b+"-2", b+".0.beta1", b+".beta1", b+".0-1", b+".0")
 		}
 	}
 	// maven: the unique snapshots of this base as a repository lists them, next to the literal -SNAPSHOT
